@@ -22,6 +22,9 @@ Inductive case :=
 (* ReadTL2 of schema item [tid] on [input]: None = error, Some (remaining length, what WriteTL2 of the object
    just read produced) *)
 | CRead2 (tid : nat) (input : bytes) (o : option (Z * bytes))
+(* the same Go object written as bare TL1 and as TL2: the model value read from the TL1 bytes encodes to the
+   TL2 bytes (ties the identity of fields across the two encodings) *)
+| CCross (tid : nat) (tl1 tl2 : bytes)
 (* CompressAndFrame data = frame, where lz4.CompressBlockHC returned c *)
 | CFrameC (data c frame : bytes)
 (* DeFrame frame: Some (original size, length of the compressed data) *)
@@ -67,6 +70,12 @@ Definition ok (c : case) : bool :=
              | _ => false
              end)
       | _, _ => false
+      end
+  | CCross tid tl1 tl2 =>
+      let d := snd (nth tid schema (0, DStruct [])) in
+      match read [] d tl1 with
+      | Some (v, []) => if wf [] d v then bytes_eqb (enc2 d v) tl2 && wf2 d v else true
+      | _ => false
       end
   | CFrameC data c frame => bytes_eqb (compress_and_frame (fun _ => c) data) frame
   | CDeframe frame o =>
